@@ -573,12 +573,8 @@ fn div_loop(
             k = t >> U64_RESOLUTION;
         }
 
-        let new_carry = dividend
-            .get_word_u128(index + num_divisor_words)
-            .wrapping_add(k)
-            .lo();
         if use_carry {
-            *dividend_carry_space = new_carry
+            *dividend_carry_space = (*dividend_carry_space as u128).wrapping_add(k).lo();
         } else {
             dividend.update_word(
                 index + num_divisor_words,
